@@ -51,6 +51,8 @@ enum Shown {
     AtMost(u64),
     /// exactly the messages whose code is in the list
     Codes(Vec<String>),
+    /// exactly N, unless the invocation was rejected as invalid (exit 2 from the argument parser, nothing analysed)
+    ExactlyIfAccepted(u64),
 }
 
 fn run_case(c: &Case) -> Option<(String, String)> {
@@ -71,6 +73,10 @@ fn run_case(c: &Case) -> Option<(String, String)> {
     let r = Run::new(&a).cwd(&scratch.path).run();
     if r.crashed() {
         return Some(("crash".into(), format!("signal {:?} timeout {}: {}", r.signal, r.timed_out, r.stderr_str().lines().find(|l| l.contains("panicked")).unwrap_or(""))));
+    }
+    // a spelling that the argument parser refuses (usage error, nothing analysed, nothing printed) is no finding
+    if matches!(c.shown, Some(Shown::ExactlyIfAccepted(_))) && r.status == Some(2) && r.stdout.is_empty() {
+        return None;
     }
     // "reported": an ERROR line on stderr, or (modes that display no errors, e.g. views) the statistics file
     let stats_reported = std::fs::read_to_string(&statp).ok().and_then(|t| serde_json::from_str::<Value>(&t).ok()).map_or(false, |st| {
@@ -122,7 +128,7 @@ fn run_case(c: &Case) -> Option<(String, String)> {
     }
     match &c.shown {
         None => {}
-        Some(Shown::Exactly(n)) => {
+        Some(Shown::Exactly(n)) | Some(Shown::ExactlyIfAccepted(n)) => {
             if coded.len() as u64 != *n {
                 return Some(("shown-count".into(), format!("{} error messages shown, expected {n}", coded.len())));
             }
@@ -286,6 +292,30 @@ pub fn run(tier: Tier) -> i32 {
         }
         for l in [vec!["4"], vec!["44"], vec!["444"], vec!["4", "44"], vec!["44", "10"], vec!["1"], vec!["0"], vec!["445", "41", "11"]] {
             lists.push(l.iter().map(|x| x.to_string()).collect());
+        }
+        // the same lists written otherwise: a code repeated in front, the list reversed, one `-w` per code
+        let mut respelt: Vec<(Vec<String>, Vec<String>)> = Vec::new(); // (meaning, arguments after the mode)
+        for l in lists.iter().filter(|l| l.len() >= 2) {
+            let mut rep_front = vec![l[0].clone()];
+            rep_front.extend(l.iter().cloned());
+            respelt.push((l.clone(), std::iter::once("-w".to_string()).chain(rep_front).collect()));
+            respelt.push((l.clone(), std::iter::once("-w".to_string()).chain(l.iter().rev().cloned()).collect()));
+            respelt.push((l.clone(), l.iter().flat_map(|c| ["-w".to_string(), c.clone()]).collect()));
+            respelt.push((l.clone(), vec![format!("--error-codes={}", l[0]), "-w".to_string(), l[1].clone()].into_iter().chain(l.iter().skip(2).flat_map(|c| ["-w".to_string(), c.clone()])).collect()));
+        }
+        if let Some(two) = distinct.get(0..2) {
+            let l: Vec<String> = two.to_vec();
+            let mut a3 = vec!["-w".to_string(), l[0].clone(), l[0].clone(), l[1].clone()];
+            respelt.push((l.clone(), a3.clone()));
+            a3.swap(1, 3);
+            respelt.push((l.clone(), a3));
+        }
+        for (meaning, args) in respelt {
+            let n = produced.iter().filter(|c| meaning.contains(c)).count() as u64;
+            let mut a = s(&["check", "all", "its", "-E", "9"]);
+            a.extend(args.iter().cloned());
+            // a spelling the tool does not accept is no finding; an accepted one must mean the same list
+            cases.push(Case { label: format!("mixed codes, filter {:?} spelt {:?}", meaning, args), input: Input::Bytes(b.clone()), args: a, exit: Exit::Code(9), total: None, shown: Some(Shown::ExactlyIfAccepted(n)), must_not_exist: vec![] });
         }
         for l in lists {
             let n = produced.iter().filter(|c| l.contains(c)).count() as u64;
@@ -539,7 +569,9 @@ pub fn run(tier: Tier) -> i32 {
             unique.dedup();
             for fm in 1u32..(1 << fcodes.len()) {
                 let filter: Vec<String> = fcodes.iter().enumerate().filter(|(i, _)| fm & (1 << i) != 0).map(|(_, c)| c.to_string()).collect();
-                for cap in [None, Some(1u32), Some(2), Some(3), Some(5)] {
+                // the list as given, and with its first code repeated in front (`-w 30 30 40`): same meaning
+                for (cap, repeat) in [(None, false), (Some(1u32), false), (Some(2), false), (Some(3), false), (Some(5), false), (None, true), (Some(2), true)] {
+                    let filter: Vec<String> = if repeat { std::iter::once(filter[0].clone()).chain(filter.iter().cloned()).collect() } else { filter.clone() };
                     capture::install();
                     capture::reset();
                     ErrPrinter::new(cap, Some(&filter)).print(msgs.iter(), &unique);
